@@ -166,13 +166,8 @@ def gen_case(rng, root, i):
 
 
 def run(ctx):
-    ok_build, log = ctx.coq_build()
-    props_ok, pout = (False, log)
-    if vo_ok("Props/C17") or ok_build:
-        props_ok, pout = ctx.coq_props()
-    if not props_ok:
-        ctx.violation({"kind": "theorem-no-longer-checks", "file": "coq/Props/C17.v", "log": pout[-1500:]}, found_input=False)
-    ctx.trusted_base += ["Coq 8.16.1 kernel + vm_compute", "harness/unitrun op target (in-process calls of package target)",
+    ctx.prove(["Props/C17.vo", "Run/eval_C17.vo"])
+    ctx.trusted_base += ["harness/unitrun op target (in-process calls of package target)",
                          "checks/c17.py (tree generator, disk builder, Coq printer, oracle)",
                          "os.Stat/filepath.Walk/filepath.Glob/os.ExpandEnv behave as Model/Newer.v and Base/Expand.v say (filepath.Glob's actual results are fed to the model)"]
     binp = go_build_harness(ctx, "unitrun")
